@@ -827,7 +827,7 @@ def observe(obj, depth=0, full=False):
     out = {'__class__': '%s.%s' % (type(obj).__module__, type(obj).__name__)}
     names = list(ctor_params(type(obj)))
     if full:
-        names += [n for n in sorted(vars(obj)) if n not in names]
+        names += [n for n in sorted(vars(obj)) if n not in names and (full != 'public' or not n.startswith('_'))]
     for name in names:
         try:
             val = getattr(obj, name)
@@ -1202,7 +1202,7 @@ def apply_op(obj, op, ctx, case):
     sig = dict(cls=cname, op=op)
     ctx.tag('op:' + op)
     ctx.trans()
-    src_before = observe(obj, full=True)
+    src_before = observe(obj, full='public')   # private attributes (caches) are not part of the statement
     deferred = []
     if op == 'json':
         try:
@@ -1222,7 +1222,7 @@ def apply_op(obj, op, ctx, case):
             raise Stop()
         ctx.true('decodes without error', True, sig, case, observed=cname)
         plain = json.loads(text)
-        check_untouched(ctx, CL_ENC_PURE, src_before, observe(obj, full=True), sig, case, 0)
+        check_untouched(ctx, CL_ENC_PURE, src_before, observe(obj, full='public'), sig, case, 0)
         deferred = hook.deferred
         src_mid = observe(obj, full=True)
 
@@ -1263,7 +1263,7 @@ def apply_op(obj, op, ctx, case):
             else:
                 ctx.true('decoding the same dictionary again gives the same object', True, sig, case,
                          observed=o1.get('__class__') if isinstance(o1, dict) else None)
-            check_untouched(ctx, CL_ENC_PURE, src_before, observe(obj, full=True), sig, case, 0)
+            check_untouched(ctx, CL_ENC_PURE, src_before, observe(obj, full='public'), sig, case, 0)
             # edit the second decoded object in place: the dictionary, the first decoded object and the
             # object that was encoded must not notice
             if is_pmutt(again) and again is not new:
